@@ -652,8 +652,14 @@ class Director(object):
                 op = self.heckle_op(ex) or ('x', b)
                 if op[0] in TRIALS or op[0] == 'bar':
                     self.step(ex, op)
+        # (a tolerated first bar <= 0 may have been accepted, after which late adds are refused)
+        self.bibs = [b for b in self.bibs if b in m.ath]
+        if not self.bibs:
+            raise Stop('no athletes')
         scripts = self.make_scripts()
         height = self.start
+        if m.heights and height <= m.heights[-1]:
+            height = m.heights[-1] + self.inc
         regular_done = 0
         jo_rounds = 0
         while True:
